@@ -974,7 +974,8 @@ def run(ctx):
     ctx.partial = [
         'onebit_missing_refuted (D18): transparency is false for 1-bit columns with a missing entry; reproduced on the implementation on every run',
         'col_str_nul_refuted (D13): statement about the decoder BEFORE fixes/C05_string_equal_nul.diff (dec_col_str_orig)',
-        'whole-template transparency (values, labels, links of full templates) is checked end to end on the implementation only; the Coq theorems are at column level',
+        'onebit_template_refuted (D18, whole-template form): compression_transparent needs the strict ghost; both plain ghost encoders accept a one-bit element missing in one subset and the readers disagree',
+        'compression_transparent is stated for value lists accepted by the strict compressed ghost and the uncompressed ghost (executable; acceptance measured on the generated templates); outside: 3-vs-3.0 all-equal columns, bitmaps differing between subsets, all-ones values, fields > 64 bits / > 63 octets',
     ]
     ctx.assumptions = [
         'Column.v models the per-column bodies of process_*_compressed; scaling/reference values and the template walk are the caller\'s (integrator\'s) part',
@@ -1038,6 +1039,100 @@ def run_generated_templates(ctx):
             ctx.violation({'kind': 'template-transparency', 'case': case,
                            'why': 'values/labels/links differ between compressed and uncompressed storage'},
                           'ids=%s: compressed and uncompressed storage decode differently' % c['ids'])
+    ghost_templates_check(ctx, cases)
+
+
+def ghost_templates_check(ctx, cases):
+    """The hypotheses and conclusions of the whole-template theorems on the generated
+    cases: C05_decode_encode_compressed (EncodeCG.encode_compressed_ghost accepts:
+    measured, non-vacuity; then its bits are the implementation's bits and its ghost
+    values are what the implementation's decoder returns) and
+    C05_compression_transparent (strict compressed ghost and uncompressed ghost both
+    accept: then the two ghosts, labels and links printed by the model are identical
+    and equal what the implementation decodes from either storage form)."""
+    import pipeline as P
+    import bufrlib as B
+    live = [c for c in cases if c.get('py_vals') is not None and c.get('impl_enc') and c['impl_enc'][0] == 'ok']
+    if not live:
+        return
+    vals = [B.subsets_to_model(c['py_vals']) for c in live]
+    out_g = lib.run_model_sharded(['enccg %s %s' % (v, c['toks']) for v, c in zip(vals, live)])
+    out_s = lib.run_model_sharded(['enccgs %s %s' % (v, c['toks']) for v, c in zip(vals, live)])
+    out_u = lib.run_model_sharded(['encg %s %s' % (v, c['toks']) for v, c in zip(vals, live)])
+    accepted = both = 0
+
+    def ghost_vs_impl(ghost_s, dec):
+        ghost = B.parse_model_subsets(ghost_s)
+        if len(ghost) != len(dec):
+            return 'number of subsets'
+        for si, (gs, vs) in enumerate(zip(ghost, dec)):
+            if len(gs) != len(vs):
+                return 'subset %d length' % si
+            for k, (tok, v) in enumerate(zip(gs, vs)):
+                ok, note = B.value_matches(tok, v)
+                if not ok:
+                    return 'subset %d value %d impl=%r ghost=%s %s' % (si, k, v, tok, note)
+        return None
+
+    for c, og, os_, ou in zip(live, out_g, out_s, out_u):
+        case = {'ids': c['ids'], 'seed': c['seed'], 'forced': c['forced'], 'nsub': c['nsub'], 'version': c['version']}
+        if not og.startswith('ok '):
+            ctx.dist['compressed-ghost-refused ' + og] += 1
+            continue
+        accepted += 1
+        _, bits, labels_s, links_s, ghost_s = og.split(' ')
+        # input distribution of the accepted cases, per column of the value lists
+        vt = c.get('val_toks') or []
+        for k in range(len(vt[0]) if vt else 0):
+            col = [s_[k] for s_ in vt if k < len(s_)]
+            if 'n' in col and any(x != 'n' for x in col):
+                ctx.dist['ghost-accepted column: partly missing'] += 1
+            elif all(x == 'n' for x in col):
+                ctx.dist['ghost-accepted column: missing throughout'] += 1
+            elif len(set(col)) == 1:
+                ctx.dist['ghost-accepted column: all equal'] += 1
+            else:
+                ctx.dist['ghost-accepted column: differing'] += 1
+            if any(x.startswith('y') for x in col):
+                ctx.dist['ghost-accepted column: character'] += 1
+        # the implementation's bits were compared with EncodeC.encode_compressed above (compare_encode);
+        # the ghost writes the same bits and records the same labels and links (theorem encode_compressed_ghost_is_encode)
+        me = c.get('model_enc', '').split(' ')
+        if me[:1] != ['ok'] or me[1:] != [bits, labels_s, links_s]:
+            ctx.violation({'kind': 'C05-ghost-bits', 'case': case, 'no_failing_input': True,
+                           'broken': 'extracted ghost encoder and extracted encode_compressed differ (theorem encode_compressed_ghost_is_encode)'},
+                          'compressed ghost encoder accepts ids=%s but writes other bits than encode_compressed' % c['ids'])
+            continue
+        dc = c.get('impl_dec')
+        if not dc or dc[0] != 'ok':
+            ctx.violation({'kind': 'C05-decode-of-encode-fails', 'case': case, 'impl': repr(dc)[:200]},
+                          'the implementation cannot decode the compressed data it encoded: ids=%s' % c['ids'])
+            continue
+        bad = ghost_vs_impl(ghost_s, dc[1])
+        if bad and 'ulp=1' in bad and 'scale=-' in bad:
+            ctx.dist['decode-1ulp (C01 D12)'] += 1
+        elif bad:
+            ctx.violation({'kind': 'C05-ghost-values', 'case': case, 'detail': bad},
+                          'decode(encode_compressed(v)) is not the ghost of theorem decode_encode_compressed: ' + bad)
+        # transparency theorem: both ghosts accept => identical ghosts, labels, links
+        if os_.startswith('ok ') and ou.startswith('ok '):
+            both += 1
+            ts, tu = os_.split(' '), ou.split(' ')
+            if ts[2:] != tu[2:] or ts[1:] != og.split(' ')[1:]:
+                ctx.violation({'kind': 'C05-ghosts-disagree', 'case': case, 'no_failing_input': True,
+                               'broken': 'extracted ghosts contradict theorem ghosts_agree / strict_ghost_is_ghost'},
+                              'strict compressed ghost and uncompressed ghost differ for ids=%s' % c['ids'])
+        elif not os_.startswith('ok '):
+            ctx.dist['strict-ghost-refused ' + os_] += 1
+    ctx.extra['compressed_ghost_accepted'] = accepted
+    ctx.extra['compressed_ghost_cases'] = len(live)
+    ctx.extra['transparency_theorem_applies'] = both
+    if accepted < 0.9 * len(live):
+        ctx.violation({'kind': 'C05-vacuity', 'no_failing_input': True,
+                       'broken': 'theorem decode_encode_compressed applies to only %d of %d generated cases' % (accepted, len(live))})
+    if both < 0.6 * len(live):
+        ctx.violation({'kind': 'C05-vacuity', 'no_failing_input': True,
+                       'broken': 'theorem compression_transparent applies to only %d of %d generated cases' % (both, len(live))})
 
 
 def parse_opt(tok):
